@@ -98,7 +98,7 @@ class ResourceTracker(_ResourceTracker):
     def _send(self, cmd, name, rtype):
         # The tracker reads its requests line by line: a name holding a
         # newline would be executed as two requests.
-        if "\n" in name:
+        if "\n" in str(name):
             raise ValueError(
                 f"cannot track a resource whose name contains a newline: {name!r}"
             )
